@@ -80,7 +80,8 @@ WIDTHS = [None, 0, 0.5]
 MODES = [0, 1, 2, 3, 8]
 REFINE_ARGS = [{}, {"vmin": None, "vmax": None}, {"vmin": None, "vmax": None, "adjust_values": True},
                {"tolerance": 1e-3}, {"vmin": None, "vmax": None, "adjust_values": True, "least_squares_params": {"max_nfev": 30}}]
-DTYPES = ["float64", "float32", "int64", "uint8", "bool"]   # image data types (ScalarField(..., dtype=...))
+# image data types (ScalarField(..., dtype=...)); the narrow integer ones with extreme values whose sum leaves the range of the type
+DTYPES = ["float64", "float32", "int64", "uint8", "bool", "int8", "int16"]
 
 
 # =========================================================================================
@@ -187,8 +188,9 @@ def make_field_data(gs: dict, fs: dict) -> np.ndarray:
 
 
 def make_image(grid, fs: dict, data: np.ndarray):
-    """the ScalarField of the recipe's image type: float64 (default), float32, int64 (4 grey levels per unit), uint8 (8 grey
-    levels per unit above the minimum, at most 100 so that no integer arithmetic wraps), bool (cells above the mean)"""
+    """the ScalarField of the recipe's image type: float64 (default), float32, int64 (4 grey levels per unit), bool (cells above
+    the mean), narrow integers spread over uint8 10..250 / int8 60..127 / int16 5000..32000 (a constant image takes the upper
+    end), i.e. min + max is outside the range of the type (defect F36 of property C18)"""
     from pde import ScalarField
     dt = fs.get("dtype", "float64")
     if dt == "float64":
@@ -197,8 +199,11 @@ def make_image(grid, fs: dict, data: np.ndarray):
         return ScalarField(grid, data.astype(np.float32), dtype=np.float32)
     if dt == "int64":
         return ScalarField(grid, np.round(data * 4).astype(np.int64), dtype=np.int64)
-    if dt == "uint8":
-        return ScalarField(grid, np.clip(np.round((data - data.min()) * 8), 0, 100).astype(np.uint8), dtype=np.uint8)
+    if dt in ("uint8", "int8", "int16"):
+        lo, hi = {"uint8": (10, 250), "int8": (60, 127), "int16": (5000, 32000)}[dt]
+        span = float(data.max() - data.min())
+        vals = np.full(data.shape, float(hi)) if span == 0 else np.round(lo + (data - data.min()) / span * (hi - lo))
+        return ScalarField(grid, vals.astype(dt), dtype=np.dtype(dt))
     if dt == "bool":
         return ScalarField(grid, data > data.mean(), dtype=bool)
     raise ValueError(dt)
